@@ -68,6 +68,18 @@ CHECKS = {
         note="Trusted: Coq kernel + vm_compute; translator gen_switches.py; GIL statement-level atomicity is modelled, not verified; the settrace scheduler; "
              "handlers are observing and thread-safe themselves.",
         ref="DESIGN.md section 7 C17"),
+    "C18": dict(
+        technique="Coq proof (nested tree induction over the ordered list of table writes of the bookkeeping visitor) + in-coqc correspondence on every node of exported pristine trees + lexical oracle",
+        text="C18_contains (whatever containing_stmt lookup returns is a statement of the tree whose sub-tree holds the node), C18_parent (the parent statement "
+             "properly contains the node), C18_node (every node is registered under its id) and C18_tables (the write-level invariant, for any inherited "
+             "current statement) are Qed-closed for every tree in which statements only sit in list fields. model/Book.v is tied to ast_bookkeeping.py by "
+             "exporting the pristine copy of 120+ instrumented programs (hand-written edge cases + generated, several per tracer) and comparing "
+             "containing_stmt / parent_stmt / containing_ast of every node; the oracle recomputes nearest/parent statements and the is_outer_stmt / "
+             "is_initial_frame_stmt classifications (with and without exclusion sets) from ast.parse(source).",
+        note="Trusted: Coq kernel + vm_compute; hand transcription (validated by correspondence); the exporter that canonicalises ids to traversal "
+             "indices and leaves out CPython's shared singleton nodes (Load, Add, ...). Outer-statement classification and liveness of entries after "
+             "later instrumentations are decided by the oracle, not by a theorem.",
+        ref="DESIGN.md section 7 C18"),
     "C20": dict(
         technique="Coq proof (induction over well-nested operation blocks) on a transcribed model + in-coqc correspondence with the real TraceStack",
         text="Seven Qed-closed theorems over model/Stack.v (every well-nested operation sequence, every declaration with distinct names, every field order): "
